@@ -28,6 +28,37 @@ NA = {
 for i in range(1, 21):
     NA.setdefault("C%02d" % i, "no solver-based check completed for this property in the time available; see DESIGN.md section 14")
 
+
+CHECKS.update({
+ "C01": ("Bounded symbolic execution of the real Inbox.Send/schedule/process/run/Start, RingBuffer and goscheduler with sender goroutines and a recording Processer, over every interleaving at synchronisation granularity within a preemption bound of 2 (2 senders x 2 messages quick, 3 x 2 thorough; initial ring size 1..2 so growth, wrap and batch splits occur; Start before or racing with the senders), plus the real process with its real Inbox while Spawn races with two senders. Oracle: every accepted message reaches Receive/Invoke exactly once, per-sender order kept, payload (symbolic) and sender preserved.",
+         "Interleavings are enumerated by the executor's scheduler decisions (context bounding), data is symbolic; beyond the preemption/thread/message bounds nothing is claimed.", "symbolic execution of go/ssa with a bounded-preemption scheduler + z3", "§5 C01"),
+ "C02": ("Same threaded units as C01; the recording receiver yields in the middle of every Invoke/Receive and flags any second entry while one is active (user messages, Initialized/Started on the spawner goroutine, Stopped and the restart on the worker goroutine after a symbolic crash).",
+         "Non-overlap is checked; the happens-before edge between consecutive Receives is not separately checked (the executor's race detector is not enabled here). Preemption bound 2.", "symbolic execution of go/ssa with a bounded-preemption scheduler + z3", "§5 C02"),
+ "C03": ("Same inbox unit as C01: at quiescence (every goroutine finished, nobody sends any more) all accepted messages were handled, the ring is empty and the status is idle, for every interleaving of Send (push, try-schedule) with the worker's last empty pop, its running->idle transition, its re-check and with Start, within preemption bound 2.",
+         "Bounds: 2 (thorough 3) senders x 2 messages, ring size 1..2, preemption bound 2.", "symbolic execution of go/ssa with a bounded-preemption scheduler + z3", "§5 C03"),
+ "C08": ("Threaded execution of the real process/Context/SafeMap/Inbox code on a supervision tree (depth 1, thorough 2; fan-out 2): each node checks, at the instant it handles Stopped, that all its descendants have handled Stopped and are unregistered; the stop context's cancellation instant is checked the same way; Children()/Parent() are probed after a child stopped on its own. Shutdown by Stop or Poison, optionally racing with a third party poisoning a child. Two reproduced defects are listed as known findings.",
+         "Preemption bound 1 (thorough 2); children crashing during shutdown are outside the claim; native replays see Go's random map order and are attempted several times.", "symbolic execution of go/ssa with a bounded-preemption scheduler + z3", "§5 C08"),
+ "C09": ("Event-stream unit: the real eventStream receiver, Engine.send/SendLocal/BroadcastEvent/Subscribe/Unsubscribe and Registry on a bare engine, over every history of 4 (thorough 5) symbolic operations (subscribe/unsubscribe with the same or an equal PID object, broadcast, send to an unregistered local PID with/without sender, send to a foreign address without remote, send to nil, a subscriber stops while subscribed). Oracle: no panic, each undeliverable message is reported exactly once with its target, message and sender to every live subscriber, and the event queue drains (finite events).",
+         "The event stream's own inbox is replaced by a queue the harness drains; 'finite' is checked as 'drains within 30 handled events per operation'.", "symbolic execution of go/ssa + z3, event-stream unit harness", "§5 C09"),
+ "C10": ("Sequential histories of 5 (thorough 6) symbolic operations spawn/send/stop/deliver on one id (duplicate spawn runs no producer, publishes ActorDuplicateIdEvent, leaves the owner and its pending messages untouched; GetPID answers exactly while registered; respawn after stop works), plus two concurrent SpawnProc of one id with concurrent senders on the real Inbox (exactly one producer runs, one duplicate event, one Started) within preemption bound 2.",
+         "SpawnChild goes through the same Registry.add; Stop concurrent with Spawn is outside the claim.", "symbolic execution of go/ssa + z3, L1 and L2 harnesses", "§5 C10"),
+ "C11": ("Threaded execution of the real Engine.Request / Response.Result / Response.Send / Registry with 2 concurrent requests, 0..2 replies each from a replier goroutine, timeout timers that may fire at any scheduling point, and response ids from math/rand modelled as any value in range (the solver picks them, so an id collision is found if ids can collide). Oracle: Result returns the reply to that very request or an error, never returns without reply or timeout, the response PID is unregistered afterwards, a reply sent after Result returned becomes a dead letter.",
+         "Preemption bound 1 (thorough 2); the timeout is a model (timer goroutine), not wall-clock time.", "symbolic execution of go/ssa with a bounded-preemption scheduler + z3", "§5 C11"),
+ "C12": ("Event-stream unit as for C09 over histories of subscribe/unsubscribe/broadcast on 2 subscriber PIDs given as the same or an equal-but-distinct PID object (symbolic): each broadcast reaches each current subscriber exactly once, in order, nothing after unsubscribe, no duplicates after double subscribe. Lifecycle events: L1 process-unit histories count ActorStarted/Restarted/Stopped events per occurrence.",
+         "Sequential: concurrent broadcasters are outside the claim.", "symbolic execution of go/ssa + z3, event-stream unit and L1 harnesses", "§5 C12"),
+ "C15": ("The real streamWriter.Invoke encodes a batch of 1..2 (thorough 3) messages and the real streamReader.Receive decodes the resulting Envelope on a second bare engine. Targets, type names, payload byte, absence of a sender, the sender's address and id strings (1..2 symbolic bytes each, so equal senders and senders differing only in the address/id split are found by the solver) and a 'cannot be serialised' flag per message are symbolic. Oracle: same count (minus unserialisable ones), same order, right target, payload, type and sender, nil sender stays nil, no panic.",
+         "Protobuf marshalling and DRPC framing are outside: serializer/deserializer are stubs and the Envelope is handed over in memory.", "symbolic execution of go/ssa + z3, writer/reader round-trip harness", "§5 C15"),
+ "C16": ("The real streamReader.Receive is run on one Envelope with 0..2 type names, targets and senders and 1..2 (thorough 3) messages whose TargetIndex/SenderIndex/TypeNameIndex are unconstrained symbolic int32. Oracle: no panic; whatever is delivered went to the target, with the type and sender that the message's own in-range indices name; z3 decides every bounds check.",
+         "Starts from a decoded Envelope: the protobuf byte decoder and DRPC framing are outside the claim; the Deserializer is a stub.", "symbolic execution of go/ssa + z3, reader harness", "§5 C16"),
+ "C18": ("The real Agent.handleMembers/memberJoin/memberLeave/rebuildKinds and MemberSet code is run on sequences of 3 (thorough 4) snapshots over a universe of 3 (thorough 4) members; membership of each member in each snapshot and a duplicate entry are symbolic booleans. Oracle after each snapshot: view == snapshot by ID, exactly one join event per new member, one leave event per dropped member, none for members that stayed, kind set == kinds advertised by the view.",
+         "Agent state is read directly instead of through the Members()/HasKind() request plumbing; members keep their host and kinds.", "symbolic execution of go/ssa + z3, agent snapshot harness", "§5 C18"),
+ "C19": ("2 (thorough 3) real Agents on bare engines joined by a synchronous in-memory network; quiescent histories of 3 symbolic operations (activate from any member with the select function picking any offered member, deactivate, late join, leave), notifications drained in every arrival order. Oracle: Activate returns nil and spawns nothing for a known id or unknown kind, otherwise exactly one actor on the selected capable member; afterwards every member resolves the id to the same PID and GetActiveByKind lists it; late joiner learns all; deactivate removes everywhere and stops the actor; leave drops hosted activations.",
+         "Quiescent histories only; Cluster.Activate/GetActive* request plumbing replaced by sending the same messages to the agents.", "symbolic execution of go/ssa + z3, multi-agent harness", "§5 C19"),
+ "C20": ("The real SelfManaged.Receive (Handshake, Members, memberLeave) with MemberSet is run on histories of 3 (thorough 4) operations over a universe of 3 (thorough 4) members; list contents are symbolic. Oracle: no panic, member list equals the model after each message, a handshake is answered to the peer with the complete list, the agent is told the correct list on handshake and on removal, an unreachable report for a non-member changes nothing.",
+         "The Started handler (zeroconf, ping repeater) and the event-stream child are outside the claim.", "symbolic execution of go/ssa + z3, provider history harness", "§5 C20"),
+})
+NA["C17"] = "not applicable to solver-based checking of the real code within reach: the property is about two engines talking over TCP through storj.io/drpc (net.Listen/net.Dial, drpcserver, drpcconn, goroutines inside those libraries, dial retries on wall-clock time); none of that can be executed symbolically by the SSA executor, and replacing it by stubs would leave only the writer/reader encoding (claimed under C15/C16) and the router's map bookkeeping. See DESIGN.md section 14."
+
 def main():
     checks = []
     for pid in sorted(CHECKS):
